@@ -691,9 +691,14 @@ func (s *Syncer) acceptLoop(ctx context.Context) error {
 			}
 
 			t, err := gateway.Accept(conn, s.header)
-			if err != nil || s.alreadyConnected(t.UniqueID) {
+			if err != nil {
 				// note: most likely a timeout or other temp network error.
 				// logging is very noisy
+				return
+			} else if s.alreadyConnected(t.UniqueID) {
+				// closing the conn alone leaves the transport's goroutines
+				// behind if the peer already opened a stream
+				t.Close()
 				return
 			}
 			conn.SetDeadline(time.Time{})
@@ -704,6 +709,7 @@ func (s *Syncer) acceptLoop(ctx context.Context) error {
 			}
 			if err := s.addPeer(p); err != nil {
 				s.log.Debug("failed to add peer", zap.Stringer("remoteAddress", conn.RemoteAddr()), zap.Error(err))
+				t.Close()
 				return
 			}
 			s.runPeer(p)
@@ -980,7 +986,7 @@ func (s *Syncer) Connect(ctx context.Context, addr string) (*Peer, error) {
 		conn.Close()
 		return nil, err
 	} else if s.alreadyConnected(t.UniqueID) {
-		conn.Close()
+		t.Close()
 		return nil, errors.New("already connected")
 	}
 	p := &Peer{
